@@ -133,7 +133,33 @@ def main(tier):
                         rep.violation("value_depends_on_batch", {"layout": l, "mol": m, "output": name, "maxdiff": d, "tol": tol}, output=name, **fields)
             if len(samples) < 2:
                 samples.append({"layout": l, "Etot": {m: o["Etot"] for m, o in rr["result"].items()}})
+        # ---- same-element relabelling ----------------------------------------------------------------------------------------------
+        rjobs = [dict(mols=m, params=pp, seed=k) for k, m in enumerate((["ch4"], ["h2o", "c2h4"], ["co2", "nh3"], ["nh4+", "h2co"], ["c2h4", "ch4", "h2"]))
+                 for pp in (dict(scf_converger=[1], scf_eps=1.0e-10), dict(scf_converger=[2], scf_eps=1.0e-10), dict(scf_converger=[1], scf_eps=1.0e-10, sp2=[True, 1e-7]),
+                            dict(scf_converger=[1], scf_eps=1.0e-10, excited_states={"n_states": 2, "method": "cis", "tolerance": 1e-8}))
+                 if not ("excited_states" in pp and len(set(m)) > 1 and "h2" in m)]
+        if tier == "quick":
+            rjobs = rng.sample(rjobs, 8)
+        rres = common.run_forked(rjobs, batch_driver.run_relabel, timeout=900)
+        n_rel = 0
+        for j, rr in zip(rjobs, rres):
+            fields = dict(solver=j["params"]["scf_converger"][0], sp2="sp2" in j["params"], extra_pad=0, far_padding=False, path="relabel", excited="excited_states" in j["params"])
+            if not rr.get("ok"):
+                rep.violation("batch_job_failed", {"layout": j, "error": rr.get("error")}, **fields)
+                continue
+            o = rr["result"]
+            if not o["moved"]:
+                rep.machinery("relabel job moved no atom")
+            for name, d in o.items():
+                if name == "moved":
+                    continue
+                n_rel += 1
+                tol = TOL_F if name in ("force", "dipole") else TOL_E
+                worst["relabel_" + name] = max(worst.get("relabel_" + name, 0.0), d / tol)
+                if d > tol:
+                    rep.violation("value_depends_on_atom_labels", {"job": j, "output": name, "maxdiff": d, "tol": tol}, output=name, **fields)
         cov = {
+            "relabel_comparisons": n_rel,
             "states": r.distinct + g.distinct,
             "transitions": r.generated + g.generated,
             "traces_validated_against_impl": len(recs),
